@@ -8,10 +8,12 @@ export GOPROXY=off GOSUMDB=off GOTOOLCHAIN=local GOFLAGS=
 cd $WT && git checkout -q -- . && git clean -fdq
 suite() { (cd $WT/ociregistry && go test -count=1 ./... 2>&1 | grep -v '^ok\|no test files' ; cd $WT/ociregistry/internal/conformance && go test -count=1 ./... 2>&1 | grep -v '^ok\|no test files'; cd $WT/cmd/ocisrv && go test -count=1 ./... 2>&1 | grep -v '^ok\|no test files'); }
 demo() { cp $M/zz_demo_test.go $WT/$DEST; (cd $WT/$(dirname $DEST) && go test -count=1 -run 'Demo' . 2>&1 | tail -3); rm -f $WT/$DEST; }
-echo "== demo without mutant"; demo
+echo "== demo without mutant"; D0=$(demo); echo "$D0"
 git apply $M/patch.diff || { echo "PATCH DOES NOT APPLY"; exit 2; }
-echo "== suite with mutant (only failures shown)"; suite
-echo "== demo with mutant"; demo
+echo "== suite with mutant (only failures shown)"; S=$(suite); echo "$S"
+echo "== demo with mutant"; D1=$(demo); echo "$D1"
+echo "SUMMARY demo_without=$(echo "$D0" | grep -q '^ok' && echo pass || echo FAIL) suite_with=$([ -z "$S" ] && echo pass || echo FAIL) demo_with=$(echo "$D1" | grep -q '^FAIL' && echo fail || echo PASS)"
+[ -n "${SEED_NOCHECK:-}" ] && CHECKS=""
 for c in $CHECKS; do
   echo "== ./check $c against mutant"
   (cd /verif && VERIF_REPO=$WT ./check $c 2>&1 | grep -E 'VIOLATION|KNOWN-FINDING|cases,' ; echo "exit=${PIPESTATUS[0]}")
